@@ -301,8 +301,8 @@ class TimeDependentLinearPDE(LinearPDE):
         if self.observation_map is not None:
             solution_obs = self.observation_map(solution_obs)
         
-        # squeeze if only one time observation
+        # squeeze if only one time observation (a single observation point stays a vector of length one)
         if len(self._time_obs) == 1:
-            solution_obs = solution_obs.squeeze()
+            solution_obs = np.atleast_1d(solution_obs.squeeze())
 
         return solution_obs
